@@ -5,7 +5,7 @@ from regpcommon import *
 
 META = dict(
     engine='Regp.tla',
-    technique='TLA+ spec Regp.tla states the wire image of every frame kind per doc/regp.txt (big-endian header, CRC-16/ARC header and payload checksums exactly on serial links, SLIP / varint framing) and an independent reading of a received frame; every emit entry point of the real library is driven over transports x word sizes x addresses x sizes x payloads x sequence numbers, its output fed to the library-own receiver on a peer instance, and TLC validates each recorded call (exact octets on the wire, sequence number increment, the fields and payload the peer received) with RegpTrace.tla',
+    technique='TLA+ spec RegpOps.tla / RegpEmitMC.tla (TLC enumerates ~70k emit calls, checks conformance of each prescribed frame, all replayed) states the wire image of every frame kind per doc/regp.txt (big-endian header, CRC-16/ARC header and payload checksums exactly on serial links, SLIP / varint framing) and an independent reading of a received frame; every emit entry point of the real library is driven over transports x word sizes x addresses x sizes x payloads x sequence numbers, its output fed to the library-own receiver on a peer instance, and TLC validates each recorded call (exact octets on the wire, sequence number increment, the fields and payload the peer received) with RegpTrace.tla',
     level='For read/write requests in 8- and 16-bit semantics, acknowledgements with and without payload, each of the eleven error responses (to read and to write requests) and both meta messages, on serial and TCP transports and both memory word sizes, with addresses/sizes at the 16/32-bit boundaries, payloads containing the SLIP control octets, lengths crossing the one/two-octet varint boundary and sequence numbers around 0xFFFF, TLC checks that the octets the real code emitted are exactly the ones the specification prescribes, that the specification-s own reading classifies them as a valid frame, that a request advances the session sequence number by one modulo 2^16, and that the library-s own receiver accepted the frame and reported the same type, option bits, response code, sequence number, address, block size and payload octets.',
     note='Trusted: TLC, harness/regp.c, my reading of doc/regp.txt encoded in Regp.tla (in particular: the block size field of every frame except read requests and meta messages is the payload size in words of the frame-s word size). 16-bit payload words travel in host order (the library sends the memory image); payloads are handled as octet strings.',
 )
@@ -55,6 +55,18 @@ def run(tier):
     v = vf.Verdict('C08', tier)
     vf.build()
     quick = tier != 'thorough'
+    # E0/E1: TLC enumerates a grid of calls of every emit entry point, checks conformance of the prescribed frame on each
+    # (RegpEmitMC.tla: EmitConforms) and emits call + prescribed observation; all are replayed on the real library
+    cases = []
+    r0 = vf.tlc_must_pass('RegpEmitMC.tla', 'RegpEmitMC.cfg', 'regpemit', heap='16g',
+                          sink=lambda b: cases.append(b[3:]) if b.startswith('C;;') else None)
+    v.add_tlc(r0)
+    res1 = vf.run_scripts('regp', [cases[i:i + 500] for i in range(0, len(cases), 500)], 'C08', name='emc')
+    v.exec_problems(res1, 'regp')
+    v.cov['traces_validated_against_impl'] += len(cases)
+    v.cov['evaluations'] += res1.checked
+    v.cov['samples'].append(dict(kind='E1 case from TLC (RegpEmitMC.tla): emit call | rc seq wire -7 peer view', events=cases[3000:3002]))
+    v.notes['e0_e1'] = dict(model='RegpEmitMC.tla', cases=len(cases))
     rnd = random.Random(vf.seed())
     ss = list(scripts(rnd, quick))
     vf.trace_flow(v, 'RegpTrace.tla', 'RegpTrace.cfg', 'regp', ss, 'emit')
